@@ -76,6 +76,9 @@ class World(EventDispatcher):
 
         if entity_id is None:
             entity_id = next(self.id_generator)
+            # Skip ids that are already in use (user supplied ones)
+            while entity_id in self._entities:
+                entity_id = next(self.id_generator)
 
         # Code duplication for performance, see add_component
         for component in components:
